@@ -567,22 +567,40 @@ theorem reprocessNs_none (c : Ctl) (name : String) (h : ∀ sv ∈ c.svcs, sv.ns
     simpa using h sv hsv
   simp [reprocessNs, hnone]
 
-theorem ns_write_ctl (c : Ctl) (v : Ns) (h : ∀ sv ∈ c.svcs, sv.ns ≠ v.name) :
+/-- the Namespace write does not change the traffic-distribution annotation (then the handler does nothing) -/
+def NsQuiet (c : Ctl) (v : Ns) : Prop :=
+  match c.nss.find? (fun n => n.name = v.name) with
+  | none => v.td = false
+  | some o => o.td = v.td
+
+theorem ns_write_ctl (c : Ctl) (v : Ns) (h : (∀ sv ∈ c.svcs, sv.ns ≠ v.name) ∨ NsQuiet c v) :
     stepC c (.ns v) = some { c with nss := upsertBy (fun x => x.name = v.name) v c.nss } := by
   simp only [stepC, Option.some.injEq]
   have hfind : (upsertBy (fun x => decide (x.name = v.name)) v c.nss).find? (fun n => decide (n.name = v.name)) = some v := by
     apply find_upsertBy
     simp
-  have hre := reprocessNs_none { c with nss := upsertBy (fun x => decide (x.name = v.name)) v c.nss } v.name h
-  cases c.nss.find? (fun n => n.name = v.name) with
-  | none =>
-    simp only [runAll, runEvents, handle, hfind]
-    split <;> simp [hre, runEvents]
-  | some o =>
-    simp only [runAll, runEvents, handle, hfind]
-    split <;> simp [hre, runEvents]
+  cases h with
+  | inl h =>
+    have hre := reprocessNs_none { c with nss := upsertBy (fun x => decide (x.name = v.name)) v c.nss } v.name h
+    cases c.nss.find? (fun n => n.name = v.name) with
+    | none =>
+      simp only [runAll, runEvents, handle, hfind]
+      split <;> simp [hre, runEvents]
+    | some o =>
+      simp only [runAll, runEvents, handle, hfind]
+      split <;> simp [hre, runEvents]
+  | inr h =>
+    unfold NsQuiet at h
+    cases hf : c.nss.find? (fun n => n.name = v.name) with
+    | none =>
+      rw [hf] at h
+      simp [runAll, runEvents, handle, hfind, h]
+    | some o =>
+      rw [hf] at h
+      simp [runAll, runEvents, handle, hfind, h]
 
-theorem ns_delete_ctl (c : Ctl) (name : String) (c' : Ctl) (h : ∀ sv ∈ c.svcs, sv.ns ≠ name)
+theorem ns_delete_ctl (c : Ctl) (name : String) (c' : Ctl)
+    (h : (∀ sv ∈ c.svcs, sv.ns ≠ name) ∨ ∀ o, c.nss.find? (fun n => n.name = name) = some o → o.td = false)
     (hstep : stepC c (.delNs name) = some c') :
     c' = { c with nss := c.nss.filter (fun x => !(x.name = name)) } := by
   simp only [stepC] at hstep
@@ -593,9 +611,13 @@ theorem ns_delete_ctl (c : Ctl) (name : String) (c' : Ctl) (h : ∀ sv ∈ c.svc
     simp only [Option.map, Option.some.injEq] at hstep
     rw [← hstep]
     have hon : o.name = name := by simpa using List.find?_some hf
-    have hre := reprocessNs_none { c with nss := c.nss.filter (fun x => !(decide (x.name = name))) } o.name (by rw [hon]; exact h)
-    simp only [runAll, runEvents, handle]
-    split <;> simp [hre, runEvents]
+    cases h with
+    | inl h =>
+      have hre := reprocessNs_none { c with nss := c.nss.filter (fun x => !(decide (x.name = name))) } o.name (by rw [hon]; exact h)
+      simp only [runAll, runEvents, handle]
+      split <;> simp [hre, runEvents]
+    | inr h =>
+      simp [runAll, runEvents, handle, h o hf]
 
 theorem InvExcept.of_nss {c : Ctl} {P : Slice → Prop} {Q : Svc → Prop} (h : InvExcept c P Q) (nss' : List Ns) :
     InvExcept { c with nss := nss' } P Q :=
